@@ -58,10 +58,10 @@ def obligations(tier):
             for ki in ('int', 'absent'):
                 obs.append({'h': 'classify', 'k': ['str', ki, 'str', kp], 'disp': d})
         for dk in DATA_KINDS:
-            for mode in ('call', 'notif', 'batch0', 'batch1'):
+            for mode in ('call', 'notif', 'batch0', 'batch1', 'batchn'):
                 obs.append({'h': 'app', 'data': dk, 'mode': mode, 'disp': d})
         for exc in EXC_TYPES:
-            for mode in ('call', 'notif', 'batch0', 'batch1'):
+            for mode in ('call', 'notif', 'batch0', 'batch1', 'batchn'):
                 obs.append({'h': 'exc', 'exc': exc, 'mode': mode, 'disp': d})
         for a, b in it.product(('absent', 'null', 'int', 'str', 'zero', 'list'), repeat=2):
             if a != b or a in ('int', 'list'):
@@ -215,6 +215,9 @@ def _wrap(env, wire, mode, method, params=None):
         other = {'jsonrpc': '2.0', 'method': 'echo', 'params': [7], 'id': env.int('oid')}
         env.assume(other['id'] != rid)
         return [el, other], 0, rid
+    if mode == 'batchn':        # our element followed by a NOTIFICATION as last element of the batch
+        other = {'jsonrpc': '2.0', 'method': 'echo', 'params': [7]}
+        return [el, other], 0, rid
     if mode == 'batch1':
         other = {'jsonrpc': '2.0', 'method': 'echo', 'params': [7], 'id': env.int('oid')}
         env.assume(other['id'] != rid)
@@ -229,9 +232,10 @@ def _our_response(out, wire, pos, rid, doc):
     if pos is None:
         r, code = rdoc, out[1][0] if len(out[1]) == 1 else 'bad'
     else:
-        if not isinstance(rdoc, list) or len(rdoc) != 2:
+        n = len([e for e in doc if 'id' in e])
+        if not isinstance(rdoc, list) or len(rdoc) != n:
             raise Violation('batch-shape', (doc, rdoc))
-        r, code = rdoc[pos], out[1][pos] if len(out[1]) == 2 else 'bad'
+        r, code = rdoc[pos], out[1][pos] if len(out[1]) == n else 'bad'
     if not isinstance(r, dict) or not same_json(r.get('id', 'missing'), rid):
         raise Violation('wrong-id', (doc, rdoc))
     return r, code, rdoc
